@@ -162,6 +162,7 @@ def run(ctx):
                                                      "charset-other", "charset-meta", "typed-reset", "tol-content-switch")
                    or c["kind"].startswith("nested")]
         tcases += [c for c in cases if c["kind"] in ("byteflip", "random-body")][:: 4]
+        tcases += ps.embedded_cases(ctx.seed, 3 if ctx.tier == "quick" else 5)   # chains deeper than WBXML_MAX_EMBEDDED_DEPTH, string-table references
         tl = [ps.tline(c) for c in tcases]
         tca, tcr = common.run_lines(harness, tl)
         tma, _ = common.run_lines(driver, tl)
@@ -173,6 +174,8 @@ def run(ctx):
                     tree_feats["with_cdata"] += 1
                 if a.count(" R ") > 1:
                     tree_feats["with_embedded_document"] += 1
+                if c["kind"].startswith("embedded"):
+                    tree_feats["embedded_depth_cases"] += 1
                 if " T " in a:
                     tree_feats["with_text"] += 1
             k = classify(a, m)
